@@ -68,7 +68,8 @@ def build_inreg(cfg):
     from amaranth_soc.csr import action
     cls = getattr(action, cfg["action"])
     shape = SHAPES[cfg["shape"]]()
-    reg = csr.Register({"lo": csr.Field(action.ResRAW0, 1),
+    res_cls = [action.ResRAW0, action.ResRAWL, action.ResR0WA, action.ResR0W0][(cfg["init"] + len(cfg["shape"])) % 4]
+    reg = csr.Register({"lo": csr.Field(res_cls, 1),
                         "f": csr.Field(cls, shape, init=init_obj(cfg["shape"], cfg["init"])),
                         "wo": csr.Field(action.W, 1),
                         "hi": csr.Field(action.RW, 2, init=1)}, access="rw")
